@@ -91,6 +91,8 @@ structure Task where
   hasNext : Bool
   errorHandled : Bool
   wi : Option (Nat × Option Nat)   -- runtime_context['with_items'] = (count, capacity)
+  conc : Option Nat            -- runtime_context['concurrency']: set by the concurrency policy in
+                               -- `_before_task_start`, i.e. only when the task starts through `_run_new`
   ran : Nat                    -- ghost: how many times the completion logic of Task.complete ran
   deriving Repr
 
@@ -170,7 +172,7 @@ def childrenOfTask (w : World) (t : Nat) : List (Nat × Exec) :=
 
 def newTask (wf : Nat) (n : String) : Task :=
   { wf := wf, name := n, state := .IDLE, processed := false, hasNext := false, errorHandled := false,
-    wi := none, ran := 0 }
+    wi := none, conc := none, ran := 0 }
 
 /-- one RunTask command: nothing once the workflow is completed; saved to the backlog while it is PAUSED;
     else the row (IDLE) and the post-commit `_start_task` -/
@@ -360,7 +362,7 @@ def runTask (c : Cfg) (w : World) (t : Nat) : World :=
       | some (.subwf d none _) =>
         if isCompleted e.state then completeTask c w1 t (refusedState e.state) else startSub c w1 t d 0
       | some (.subwf d (some n) conc) =>
-        let w2 := { w with tasks := w.tasks.set t { tk with state := .RUNNING, wi := some (n, conc) } }
+        let w2 := { w with tasks := w.tasks.set t { tk with state := .RUNNING, wi := some (n, conc), conc := conc } }
         wiSchedule c w2 t d n conc
 
 /-- `is_with_items_completed` -/
@@ -400,7 +402,8 @@ def wiOnComplete (c : Cfg) (w : World) (t : Nat) : World :=
     match w.execs[tk.wf]?, tk.wi with
     | some e, some (count, cap) =>
       match kindOf c e.defn tk.name with
-      | some (.subwf d (some _) conc) =>
+      | some (.subwf d (some _) _) =>
+        let conc := tk.conc
         let cap1 := incCap conc cap
         let w1 := { w with tasks := w.tasks.set t { tk with wi := some (count, cap1) } }
         if wiCompleted w1 t count cap1 conc then completeTask c w1 t (wiFinalState w1 t)
@@ -472,8 +475,10 @@ def runExisting (c : Cfg) (w : World) (t : Nat) : World :=
       | some .action => { w1 with pending := w1.pending ++ [.postRunAction t] }
       | some (.subwf d none _) =>
         if isCompleted e.state then completeTask c w1 t (refusedState e.state) else startSub c w1 t d 0
-      | some (.subwf d (some n) conc) =>
-        let wi := tk.wi.getD (n, conc)
+      | some (.subwf d (some n) _) =>
+        -- `_run_existing` does not run the policies (`if self.rerun: self._before_task_start()`): a task that
+        -- starts through this request has no 'concurrency' in its runtime context, all items start at once
+        let wi := tk.wi.getD (n, tk.conc)
         let w2 := { w0 with tasks := w0.tasks.set t { tk with state := .RUNNING, processed := false, wi := some wi } }
         wiSchedule c w2 t d wi.1 wi.2
 
